@@ -130,6 +130,10 @@ func (c cacheCfg) real() *blockchain.CacheConfig {
 // chainKind: "legacy" = the Galaxias fork is far in the future (the proposer packs the pool blindly, failing
 // transactions are skipped by commitBlock); "galaxias" = the fork is block 1 (block 1 applies the fork
 // contracts, later blocks are pre-executed by the proposer through newProposalBlock/commitTransactions).
+//
+// "<kind>+alloc": the multi-purpose contract is part of the GENESIS allocation with non-zero values in every slot
+// the templates touch, so those values live in the snapshot's DISK layer from the start (a contract deployed by a
+// transaction has its storage in a diff layer).
 func makeGenesis(chainKind string) *genesis.Genesis {
 	// VerifFullGenesis fills the global configs tables exactly once (sync.Once) and returns a fresh object
 	g := consensus.VerifFullGenesis(valAddr(0), []common.Address{addrA, addrB, valAddr(1), valAddr(2)})
@@ -140,14 +144,36 @@ func makeGenesis(chainKind string) *genesis.Genesis {
 			MaxChangeRate: "50000000000000000", SelfDelegate: valSelfDelegate[i], StartWithGenesis: true,
 		})
 	}
-	if chainKind == "galaxias" {
+	if strings.HasPrefix(chainKind, "galaxias") {
 		one := uint64(1)
 		cc := *g.Config
 		cc.GalaxiasBlock = &one
 		g.Config = &cc
 		g.ChainID = "verif-full-galaxias"
 	}
+	if strings.HasSuffix(chainKind, "+alloc") {
+		g.ChainID += "-alloc"
+		slot := func(i int64) common.Hash { return common.BigToHash(big.NewInt(i)) }
+		g.Alloc[allocContract] = genesis.GenesisAccount{
+			Balance: big.NewInt(1000000000000000000),
+			Code:    append([]byte{}, contractRuntime...),
+			Storage: map[common.Hash]common.Hash{
+				slot(1): slot(0x1234), slot(2): slot(0x5eed), slot(3): slot(0x33), slot(4): slot(0x44), slot(5): slot(0x5555),
+			},
+		}
+	}
 	return g
+}
+
+var allocContract = common.HexToAddress("0x00000000000000000000000000000000000c0de6")
+
+// contractAddr is the address of the multi-purpose contract on a chain kind: the genesis allocation's, or the one A's
+// first transaction creates.
+func contractAddr(kind string) common.Address {
+	if strings.HasSuffix(kind, "+alloc") {
+		return allocContract
+	}
+	return crypto.CreateAddress(addrA, 0)
 }
 
 // ---------------------------------------------------------------------------------------------
@@ -435,6 +461,7 @@ type obs struct {
 	AppHash       string       `json:"app_hash"`
 	StoredAppHash string       `json:"stored_app_hash"`
 	ReturnedRoot  string       `json:"root_returned_by_application"`
+	ReadBack      string       `json:"contract_state_read_back"` // the contract's account and slots 1..5 read through BlockChain.State()
 	BlockInfoSha  string       `json:"block_info_record_sha"`
 	GasUsed       uint64       `json:"gas_used"`
 	Rewards       string       `json:"rewards"`
@@ -484,6 +511,7 @@ func (o *obs) fields() [][2]string {
 	out = append(out, [2]string{"app-hash", o.AppHash})
 	out = append(out, [2]string{"stored-app-hash", o.StoredAppHash})
 	out = append(out, [2]string{"root-returned-by-application", o.ReturnedRoot})
+	out = append(out, [2]string{"state-read-back", o.ReadBack})
 	out = append(out, [2]string{"skipped-txs", j(o.Skipped)})
 	out = append(out, [2]string{"receipt-count", fmt.Sprint(len(o.Receipts))})
 	var st, gas, ca, lg, bl []string
@@ -571,6 +599,7 @@ func (n *node) observe(o *obs, block *types.Block) {
 	o.AppHash = st.AppHash.Hex()
 	o.StoredAppHash = rawdb.ReadAppHash(n.db, h).Hex()
 	o.ReturnedRoot = n.reportedRoot.Hex()
+	o.ReadBack = n.readBack()
 	raw := rawdb.VerifC06ReadBlockInfoRLP(n.db, block.Hash(), h)
 	o.BlockInfoSha = sha(raw)
 	bi := &types.BlockInfo{}
@@ -624,6 +653,49 @@ func (n *node) observe(o *obs, block *types.Block) {
 	} else {
 		o.ReadBlockInfo = fmt.Sprintf("receipts=%d gas=%d", len(pbi.Receipts), pbi.GasUsed)
 	}
+}
+
+// readBack reads the multi-purpose contract through a fresh StateDB of the head (BlockChain.State(): snapshot-backed on
+// nodes with snapshots, trie-backed otherwise): what the NEXT block's execution will see.
+func (n *node) readBack() string {
+	st, err := n.bc.State()
+	if err != nil {
+		return "State(): " + err.Error()
+	}
+	x := contractAddr(n.kind)
+	out := fmt.Sprintf("exists=%v nonce=%d balance=%s code=%s", st.Exist(x), st.GetNonce(x), st.GetBalance(x), sha(st.GetCode(x)))
+	for i := int64(1); i <= 5; i++ {
+		v := st.GetState(x, common.BigToHash(big.NewInt(i)))
+		out += fmt.Sprintf(" slot%d=%s", i, new(big.Int).SetBytes(v.Bytes()).Text(16))
+	}
+	if err := st.Error(); err != nil {
+		out += " dberr=" + err.Error()
+	}
+	return out
+}
+
+// restart stops the node the way a clean shutdown does (pool stopped, BlockChain.Stop: cached state flushed, snapshot
+// journalled) and starts a new node with configuration cfg on the SAME database, handing it the genesis document like
+// backend.go does. The consensus state held in memory is carried over (its persistence is C14's subject).
+func (n *node) restart(cfg cacheCfg) (*node, error) {
+	st := n.state.Copy()
+	if n.pool != nil {
+		n.pool.Stop()
+		n.pool = nil
+	}
+	n.bc.Stop()
+	n.bc.VerifC06Release()
+	m, err := bootOn(n.db, cfg, n.kind)
+	if err != nil {
+		return nil, err
+	}
+	if m.bc.CurrentBlock().Height() != st.LastBlockHeight {
+		h := m.bc.CurrentBlock().Height()
+		m.close()
+		return nil, fmt.Errorf("restarted node is at height %d, the stopped node was at %d", h, st.LastBlockHeight)
+	}
+	m.state = st
+	return m, nil
 }
 
 // receive is the RECEIVER path: reassemble from parts, validate against the node's own state, save, apply.
